@@ -39,7 +39,7 @@ def auth(f):
 def entry_points(fb):
     mains = [f for f in fb.funcs.values() if f.d.get("main")]
     cbs = []
-    for m in mains:
+    for m in [f for f in fb.funcs.values() if auth(f)]:
         for n in m.nodes():
             if n["k"] == "call" and (n.get("n") or "").startswith("kerl_"):
                 for a in n["args"]:
